@@ -28,7 +28,10 @@ impl<const T: JoinType> MergeJoinExecutor<T> {
         loop {
             match (&left_group, &right_group) {
                 // cross join if left key == right key
-                (Some((lkey, lchunk)), Some((rkey, rchunk))) if lkey == rkey => {
+                // (a key containing NULL never equals another key: such groups are unmatched)
+                (Some((lkey, lchunk)), Some((rkey, rchunk)))
+                    if lkey == rkey && !has_null_key(lkey) =>
+                {
                     for left_row in lchunk {
                         for right_row in rchunk {
                             let values = left_row.iter().chain(right_row.iter()).cloned();
@@ -42,7 +45,9 @@ impl<const T: JoinType> MergeJoinExecutor<T> {
                 }
                 // left join if left key < right key or right is finished
                 (Some((lkey, lchunk)), _)
-                    if right_group.as_ref().is_none_or(|(rkey, _)| lkey < rkey) =>
+                    if right_group
+                        .as_ref()
+                        .is_none_or(|(rkey, _)| lkey < rkey || (lkey == rkey && has_null_key(lkey))) =>
                 {
                     if T == JoinType::LeftOuter || T == JoinType::FullOuter {
                         for left_row in lchunk {
